@@ -115,6 +115,40 @@ def work(task):
     return acc
 
 
+def work_sequences(task):
+    """all operation sequences of length <= 3 over {forward(x), inverse(x), forward(y), inverse(y), forward(-x)} on ONE shared converter
+    (and on the module-level singleton used by from_lonlat/to_lonlat): every result must be bit-identical to the same single
+    call on a fresh converter - the conversion is a pure function of its argument"""
+    import itertools
+    from a5.projections.authalic import AuthalicProjection
+    from a5.core import coordinate_transforms as ct
+    acc = common.Acc()
+    xs = task[1]
+    for x in xs:
+        y = AuthalicProjection().forward(x)
+        ops = [('forward', x), ('inverse', x), ('forward', y), ('inverse', y), ('forward', -x)]
+        fresh = {op: getattr(AuthalicProjection(), op[0])(op[1]) for op in ops}
+        for shared_name in ('new instance', 'module singleton'):
+            for n in (2, 3):
+                for seq in itertools.product(ops, repeat=n):
+                    au = AuthalicProjection() if shared_name == 'new instance' else ct.authalic
+                    acc.n['evaluations'] += 1
+                    acc.strata['op_sequences'] += 1
+                    for i, op in enumerate(seq):
+                        try:
+                            got = getattr(au, op[0])(op[1])
+                        except Exception as e:
+                            got = repr(e)
+                        if got != fresh[op]:
+                            acc.violation(f'c15:history:{x!r}:{"/".join(o[0] for o in seq[:i + 1])}',
+                                          f'{op[0]}({op[1]!r}) returned {got!r} after {[o[0] + "(" + repr(o[1]) + ")" for o in seq[:i]]} on a shared converter ({shared_name}); alone it returns {fresh[op]!r}',
+                                          {'phi': x, 'sequence': [[o[0], o[1]] for o in seq]})
+                            break
+                    else:
+                        acc.n['nontrivial'] += 1
+    return acc
+
+
 def run(tier, t0):
     acc = common.Acc()
     n = 1000000 if tier == "quick" else 4000000
@@ -123,10 +157,12 @@ def run(tier, t0):
     tasks.append(('ladder',))
     tasks = common.rotate(tasks, common.seed())
     common.pmap_merge(work, tasks, acc)
+    xs = [-HALF_PI + math.pi * (i + 0.5) / 48 for i in range(48)] + [0.0, HALF_PI, -HALF_PI, 1e-9, HALF_PI - 1e-9]
+    common.pmap_merge(work_sequences, [('seq', xs[i::8]) for i in range(8)], acc)
     acc.sample({'phi_rad': 1.0, 'forward': 'AuthalicProjection.forward', 'oracle': 'asin(q(phi)/q(pi/2)), q = (1-e^2)[sin/(1-e^2 sin^2) + atanh(e sin)/e], WGS84'})
     acc.sample({'ladder': '+-10^(-k/8) from 0 and +-pi/2, k = 0..128'})
     rule = (f'uniform grid of {n} + 1 latitudes on [-90, 90] degrees (consecutive points also checked for strict increase) and log-spaced ladders 10^(-k/8), k = 0..128, towards 0 and +-90 from both sides, '
-            'through AuthalicProjection.forward/inverse and from_lonlat/to_lonlat; non-trivial = latitudes meeting every bound')
+            'through AuthalicProjection.forward/inverse and from_lonlat/to_lonlat; plus all operation sequences of length 2 and 3 over forward/inverse at 53 latitudes on a shared converter; non-trivial = cases meeting every bound')
     return common.finish(PID, LEVEL, tier, acc, t0, rule, [
         'closed-form WGS84 authalic latitude with f = 1/298.257223563, evaluated through the colatitude above 40 degrees so that the oracle itself has no cancellation',
         'a 6-term trigonometric polynomial has no feature narrower than the grid spacing (3.1e-6 rad quick, 7.9e-7 rad thorough)',
@@ -137,6 +173,9 @@ def run(tier, t0):
 def replay(case):
     au, ct = _lib()
     acc = common.Acc()
+    if 'sequence' in case:
+        acc = work_sequences(('seq', [case['phi']]))
+        return [(k, w) for k, w, _ in acc.violations]
     b = check_lat(acc, au, ct, case['phi'], 'replay')
     if 'prev' in case and case['prev'] is not None and b is not None:
         if not (b > au.forward(case['prev'])):
